@@ -1,7 +1,6 @@
 package props
 
 import (
-	"context"
 	"fmt"
 	"sort"
 	"strconv"
@@ -234,7 +233,7 @@ func runC06(s *core.Sim, tier string) RunInfo {
 		ok := w.do(fmt.Sprintf("reopen@%d", k), func() {
 			st, err = store.NewStore[*H](img.Flavour(w.Flav), w.storeOpts()...)
 			if err == nil {
-				err = st.Start(context.Background())
+				err = startStore(st)
 			}
 		})
 		if !ok {
